@@ -10,5 +10,5 @@ Next == UNCHANGED <<elem, c1, c2>>
 \* the element is inside construct c1, which (depth 2) is itself inside c2
 Emit == PrintT("P " \o ToJson([elem |-> elem, nest |-> IF c2 = "none" THEN <<c1>> ELSE <<c1, c2>>]))
 \* the conventions differ between at least two dialects for every convention (the product is not vacuous)
-Distinct == \A f \in {"idq", "ph", "bool", "array", "ivl", "wrap", "pag"} : \E a, b \in Dialects : Conv[a][f] # Conv[b][f]
+Distinct == \A f \in {"idq", "ph", "bool", "array", "ivl", "wrap", "pag", "gba"} : \E a, b \in Dialects : Conv[a][f] # Conv[b][f]
 =============================================================================
